@@ -150,6 +150,7 @@ type record struct {
 	FmtErr bool   `json:"fmterr,omitempty"`
 	Origin string `json:"origin"`
 	Pieces []int  `json:"pieces,omitempty"` // sizes of the segments (information)
+	Chunks string `json:"chunks,omitempty"` // how the source delivered the bytes to the scanner (information)
 
 	// builder observations
 	Pre2     bool     `json:"pre2"`
@@ -160,7 +161,9 @@ type record struct {
 	Reread   []string `json:"reread"`
 	ApplyErr int      `json:"applyerr"`
 
-	src      []Op // the operators handed to the writer
+	prog     *program // the Builder program this stream is part of
+	stream   int      // ... and its index in it
+	src      []Op     // the operators handed to the writer
 	got      []Op
 	suspect  bool
 	pair     int64
@@ -188,7 +191,7 @@ func (r *record) tla() map[string]any {
 	if bs == nil {
 		bs = []int{}
 	}
-	m := map[string]any{"kind": r.Kind, "origin": r.Origin, "bytes": bs, "ops": ops, "pieces": r.Pieces}
+	m := map[string]any{"kind": r.Kind, "origin": r.Origin, "bytes": bs, "ops": ops, "pieces": r.Pieces, "chunks": r.Chunks}
 	if r.FmtErr {
 		m["fmterr"] = true
 	}
@@ -342,6 +345,29 @@ func (c *collector) execOps(origin string, ops, want []Op, realText bool, maxPie
 				s.errText = serr.Error()
 			}
 			c.add(&s, "")
+			continue
+		}
+		if len(cut) != 1 {
+			continue
+		}
+		// the operators read must not depend on how the source hands over
+		// the bytes: one at a time, in halves, in random chunks, with chunk
+		// boundaries inside every multi-byte token, through a decompressor
+		for _, mode := range chunkModes {
+			got, serr := scanReal(chunkedOpener(data, mode), realText)
+			c.ctx.Ev.Eval(1)
+			gotN := normOps(got)
+			if serr == nil && equalOps(gotN, want) {
+				continue
+			}
+			s := record{Kind: "scan", Bytes: r.Bytes, Ops: got, Origin: origin, Pieces: cut, Chunks: mode, src: ops, got: gotN, suspect: true, pair: pair, realOnly: ro}
+			if s.Ops == nil {
+				s.Ops = []Op{}
+			}
+			if serr != nil {
+				s.errText = serr.Error()
+			}
+			c.add(&s, "")
 		}
 	}
 }
@@ -463,6 +489,15 @@ func opsSig(ops []Op) string {
 // classify computes the stable key of a rejected record.
 func classify(r *record) (key, what string) {
 	text := clip(c01.Unints(r.Bytes), 160)
+	if r.Kind == "builder" && r.prog != nil {
+		v := "2.0"
+		if r.Pre2 {
+			v = "1.7"
+		}
+		return fmt.Sprintf("builder/stream%d-after-%s/v%s/%s", r.stream+1, r.prog.mode, v, strings.Join(r.Calls, ".")),
+			fmt.Sprintf("one Builder (PDF %s) used for %d streams (%s between them): stream %d made by calls %v: Err after call %d, Close ok=%v, closing operators %v, re-read %v, ApplyOperator refuses at %d - not a valid, balanced stream for that version (Nesting model)",
+				v, len(r.prog.streams), r.prog.mode, r.stream+1, r.Calls, r.ErrAt, r.CloseOK, r.Closing, r.Reread, r.ApplyErr)
+	}
 	if r.Kind == "builder" {
 		return "builder/" + strings.Join(r.Calls, "."),
 			fmt.Sprintf("Builder calls %v (pre-2.0=%v): Err after call %d, Close ok=%v, closing operators %v, re-read %v, ApplyOperator refuses at %d - not explained by the Nesting model",
@@ -508,6 +543,10 @@ func classify(r *record) (key, what string) {
 			return "scan/inline-image/ascii-filter-leading-whitespace", fmt.Sprintf("inline image with an ASCII filter: the scanner drops white space at the start of the data (%q)", text)
 		}
 	}
+	if r.Kind == "scan" && r.Chunks != "" {
+		return "scan/short-reads/" + r.Chunks + "/" + opsSig(r.src),
+			fmt.Sprintf("the content scanner reads %q as %s when the source delivers it %s (and correctly from a source that fills the buffer)", text, opsSig(r.got), chunkDoc[r.Chunks])
+	}
 	side := "writer"
 	verb := "wrote " + fmt.Sprintf("%q", text) + ", which does not denote the operators (reference scanner of the specification)"
 	if r.Kind == "scan" {
@@ -528,9 +567,15 @@ type replayRec struct {
 	Pre2   bool     `json:"pre2,omitempty"`
 	Calls  []string `json:"calls,omitempty"`
 	Text   string   `json:"text,omitempty"`
+	// a Builder used for several streams
+	Mode    string     `json:"mode,omitempty"`
+	Streams [][]string `json:"streams,omitempty"`
 }
 
 func replayCase(r *record) any {
+	if r.Kind == "builder" && r.prog != nil {
+		return replayRec{Side: "program", Pre2: r.prog.pre2, Mode: r.prog.mode, Streams: r.prog.streams}
+	}
 	if r.Kind == "builder" {
 		return replayRec{Side: "builder", Pre2: r.Pre2, Calls: r.Calls}
 	}
@@ -632,7 +677,11 @@ func run(ctx *core.Ctx) error {
 	forAll(len(rb), func(i int) {
 		col.execBuilder("random/builder", rb[i].pre2, rb[i].calls, nil)
 	})
-	ctx.Logf("random: %d operator sequences, %d Builder runs; %d records for TLC", len(rnd), len(rb), len(col.recs))
+	progs := programs(ctx)
+	forAll(len(progs), func(i int) {
+		col.execProgram("program", progs[i])
+	})
+	ctx.Logf("random: %d operator sequences, %d Builder runs, %d Builders used for several streams; %d records for TLC", len(rnd), len(rb), len(progs), len(col.recs))
 
 	sortRecords(col.recs)
 	nsus := map[string]int{}
@@ -699,6 +748,8 @@ func replay(ctx *core.Ctx, raw json.RawMessage) error {
 		col.execOps("replay", rc.Ops, normOps(rc.Ops), !hasTextlessReal(rc.Ops), 3)
 	case "builder":
 		col.execBuilder("replay", rc.Pre2, rc.Calls, nil)
+	case "program":
+		col.execProgram("replay", program{pre2: rc.Pre2, mode: rc.Mode, streams: rc.Streams})
 	default:
 		return core.Infra("replay: unknown side %q", rc.Side)
 	}
@@ -707,7 +758,7 @@ func replay(ctx *core.Ctx, raw json.RawMessage) error {
 		case "builder":
 			fmt.Printf("  builder: calls %v errat=%d closeok=%v closing=%v reread=%v applyerr=%d %s\n", r.Calls, r.ErrAt, r.CloseOK, r.Closing, r.Reread, r.ApplyErr, r.errText)
 		case "scan":
-			fmt.Printf("  scan record (segments %v): %q -> %s\n", r.Pieces, clip(c01.Unints(r.Bytes), 300), opsSig(r.got))
+			fmt.Printf("  scan record (segments %v, source %q): %q -> %s\n", r.Pieces, r.Chunks, clip(c01.Unints(r.Bytes), 300), opsSig(r.got))
 		default:
 			fmt.Printf("  fmt record (segments %v): %q\n", r.Pieces, clip(c01.Unints(r.Bytes), 300))
 		}
